@@ -33,28 +33,73 @@ var (
 	wBadTrail = []string{"Content-Length", "Host", "Authorization", "If-Match", "Trailer", "Te"}
 )
 
+// h3wRespell: http.Header is a plain map; keys assigned directly need not be in canonical form
+// (lower-case HTTP/2-style metadata, header-order mimicry). canonical / lower / UPPER / mixed.
+func h3wRespell(r *u.Rng, k string) string {
+	switch r.Intn(4) {
+	case 0:
+		return k
+	case 1:
+		return strings.ToLower(k)
+	case 2:
+		return strings.ToUpper(k)
+	}
+	b := []byte(k)
+	for i := range b {
+		if r.Bool() {
+			b[i] = strings.ToUpper(string(b[i]))[0]
+		} else {
+			b[i] = strings.ToLower(string(b[i]))[0]
+		}
+	}
+	return string(b)
+}
+
+// h3wGet finds a header by name, ASCII-case-insensitively (first match).
+func h3wGet(h http.Header, lower string) ([]string, bool) {
+	for k, vv := range h {
+		if strings.ToLower(k) == lower {
+			return vv, true
+		}
+	}
+	return nil, false
+}
+
 func genHeader(r *u.Rng, response bool) http.Header {
 	h := http.Header{}
+	// one key per name (whatever its spelling): the order in which two spellings of one name are
+	// iterated is not deterministic, which would make the expected Cookie / User-Agent ambiguous
+	put := func(k string, vals []string, respell bool) {
+		if respell {
+			k = h3wRespell(r, k)
+		}
+		if _, dup := h3wGet(h, strings.ToLower(k)); dup {
+			return
+		}
+		h[k] = vals
+	}
 	n := r.Intn(5)
 	for i := 0; i < n; i++ {
 		k := wHdrNames[r.Intn(len(wHdrNames))]
-		m := 1 + r.Intn(2)
-		for j := 0; j < m; j++ {
-			h[k] = append(h[k], wHdrVals[r.Intn(len(wHdrVals))])
+		var vals []string
+		for j := 1 + r.Intn(2); j > 0; j-- {
+			vals = append(vals, wHdrVals[r.Intn(len(wHdrVals))])
 		}
+		put(k, vals, true)
+	}
+	if r.Chance(1, 4) {
+		put(wHopNames[r.Intn(len(wHopNames))], []string{pick(r, []string{"close", "keep-alive", "chunked", "h2c", "timeout=5"})}, true)
+	}
+	// the names the request writer filters or special-cases are respelled for requests only (the
+	// response writer's own Content-Length / Trailer / Date handling looks at canonical keys)
+	if r.Chance(1, 6) {
+		put("Te", []string{pick(r, []string{"trailers", "trailers", "gzip", "deflate", "trailers, deflate"})}, !response)
+	}
+	if r.Chance(1, 6) {
+		put("Host", []string{"other.example"}, !response)
 	}
 	if r.Chance(1, 5) {
-		k := wHopNames[r.Intn(len(wHopNames))]
-		h[k] = []string{pick(r, []string{"close", "keep-alive", "chunked", "h2c", "timeout=5"})}
-	}
-	if r.Chance(1, 6) {
-		h["Te"] = []string{pick(r, []string{"trailers", "trailers", "gzip", "deflate", "trailers, deflate"})}
-	}
-	if r.Chance(1, 8) {
-		h["Host"] = []string{"other.example"}
-	}
-	if r.Chance(1, 6) {
-		h["Content-Length"] = []string{pick(r, []string{"5", "0", "abc", "-1", "5"})}
+		put("Content-Length", []string{pick(r, []string{"5", "0", "abc", "-1", "5", "1337"})}, !response)
 	}
 	return h
 }
@@ -197,6 +242,21 @@ func (h *h3run) writerRequest(r *u.Rng, i int) {
 	if i < 6 {
 		fmt.Fprintf(h.w, "SAMPLE\t%s\n", ascii(detail))
 	}
+	// on the wire: no connection-specific field, no host next to :authority, at most one content-length
+	ncl := 0
+	for _, f := range fs {
+		switch {
+		case rfcConnSpecific[f.Name]:
+			h.monfail("h3writers/request-wire/connection-specific", fmt.Sprintf("the request writer put %q on the wire", f.Name), detail)
+		case f.Name == "host":
+			h.monfail("h3writers/request-wire/host", "the request writer emitted a host field next to :authority", detail)
+		case f.Name == "content-length":
+			ncl++
+		}
+	}
+	if ncl > 1 {
+		h.monfail("h3writers/request-wire/content-length", fmt.Sprintf("%d content-length fields on the wire", ncl), detail)
+	}
 	got, _, err := http3.VerifRequestFromHeaders(fs, false, 1<<20)
 	if err != nil {
 		h.dist["request:rejected"]++
@@ -241,12 +301,12 @@ func (h *h3run) writerRequest(r *u.Rng, i int) {
 	want := lowerKeys(req.Header, func(k string) bool {
 		return k == "host" || k == "content-length" || rfcConnSpecific[k] || k == "user-agent" || k == "cookie"
 	})
-	if ua, ok := req.Header["User-Agent"]; !ok {
+	if ua, ok := h3wGet(req.Header, "user-agent"); !ok {
 		want["user-agent"] = []string{"quic-go HTTP/3"}
 	} else if len(ua) > 0 && ua[0] != "" {
 		want["user-agent"] = []string{ua[0]}
 	}
-	if ck := req.Header["Cookie"]; len(ck) > 0 {
+	if ck, _ := h3wGet(req.Header, "cookie"); len(ck) > 0 {
 		want["cookie"] = []string{strings.Join(ck, "; ")}
 	}
 	if gzip {
@@ -435,8 +495,21 @@ func (h *h3run) writerResponse(r *u.Rng, i int) {
 		if len(body) > 0 && want["content-length"] == nil {
 			delete(gotm, "content-length") // added for small buffered bodies
 		}
-		if len(body) > 0 && want["content-type"] == nil {
-			delete(gotm, "content-type") // sniffed from the body
+		if _, canonical := hdr["Content-Type"]; len(body) > 0 && !canonical {
+			// sniffed from the body: net/http semantics look at the canonical key only, so a handler
+			// that stored "content-type" under another spelling gets the sniffed value in addition
+			ct := gotm["content-type"]
+			for i, v := range ct {
+				if v == http.DetectContentType(body) {
+					ct = append(append([]string{}, ct[:i]...), ct[i+1:]...)
+					break
+				}
+			}
+			if len(ct) == 0 {
+				delete(gotm, "content-type")
+			} else {
+				gotm["content-type"] = ct
+			}
 		}
 		if !sameMultimap(gotm, want) {
 			h.monfail("h3writers/response-differs", fmt.Sprintf("headers %q after the round trip, want %q", gotm, want), detail)
